@@ -117,7 +117,7 @@ AXES_DECL = [
     ("share.sound_event_distinct", _B, 0, 0, 1, EVAL), ("share.sequence_distinct", _B, 0, 0, 1, EVAL),
     ("share.second_item_same_clip", _B, 0, 0, 0, CLIPPED),
     ("sea.same_sound_event", _B, 0, 0, 0, ANN), ("seq.parent_also_annotated", _B, 0, 0, 0, ANN),
-    ("feat.zero_value", _B, 0, 0, 0, ALL),
+    ("feat.zero_value", (0, 1, 2), 0, 0, 0, ALL),
     ("time.tz_aware", _B, 0, 0, 0, ALL),
     # ---- configuration
     ("audio_dir", _B, 0, 0, 1, ALL),
@@ -209,8 +209,10 @@ class Universe:
         return [data.PredictedTag(tag=self.tag(site, i), score=s if i == 0 else 0.75) for i in range(n)]
 
     def features(self, site, n):
-        if self.c["feat.zero_value"]:
+        if self.c["feat.zero_value"] == 1:
             return [data.Feature(term=term("feat_%d" % i), value=0.0) for i in range(n)]
+        if self.c["feat.zero_value"] == 2:  # extreme finite magnitudes: subnormal, huge negative
+            return [data.Feature(term=term("feat_%d" % i), value=[5e-324, -1.7976931348623157e308][i]) for i in range(n)]
         return [data.Feature(term=term("feat_%d" % i), value=[1.5, 0.1][i] + len(site)) for i in range(n)]
 
     def note(self, site, i=0):
